@@ -50,6 +50,13 @@ Inductive op :=
 | SetRuntimePath (p : option (string * string))
 | Clone (into_defaults : option tree).
 
+(** Histories may hold proxies: [Hold h fl kp] is [h = c.<kp>], [Via h o] is the
+    path operation [o] applied to the held proxy [h] (its paths relative to it). *)
+Inductive sop :=
+| Plain (o : op)
+| Hold (h : nat) (fl : flavour) (kp : path)
+| Via (h : nat) (o : op).
+
 (** * Outcomes *)
 Inductive outcome :=
 | ONone                          (* returned None *)
